@@ -23,6 +23,12 @@ struct verif_in {
 	data_off_t st_size[SPLIT_MAX], rec_size[SPLIT_MAX];
 	int fstat_ret, advise_ret;
 	int already_open;
+	/* handle_read / handle_write */
+	unsigned char filedata[8], before[8];
+	unsigned rw_size;
+	block_off_t rw_pos;
+	data_off_t valid_size;
+	int chunk[8], io_fail_at, advise_rw_ret;
 	/* state_check region */
 	int fix, auditonly, level, skip_access[LEV_MAX], excluded[LEV_MAX], popen_ret[LEV_MAX], pcreate_ret[LEV_MAX], chsize_ret, process_ret;
 	block_off_t blockstart, blockmax;
@@ -72,6 +78,44 @@ void pathprint(char *dst, size_t size, const char *format, ...) { (void)format; 
 void pathcpy(char *dst, size_t size, const char *src) { (void)src; if (size) dst[0] = 0; }
 #endif
 
+static unsigned g_pread_calls, g_pwrite_calls;
+static off_t g_pwrite_off = -1;
+static size_t g_pwrite_n;
+static const void *g_pwrite_buf;
+static int g_pread_bad_args;
+static unsigned char *g_rw_buffer;
+static ssize_t v_pread(int fd, void *buf, size_t n, off_t off)
+{
+	unsigned k, c, done = (unsigned)((unsigned char *)buf - g_rw_buffer);
+	(void)fd;
+	/* every call continues where the previous one stopped: buffer + done, size 8 - done, offset pos * 8 + done */
+	if (done >= 8 || n != 8 - done || off != (off_t)IN.rw_pos * 8 + (off_t)done)
+		g_pread_bad_args = 1;
+	if ((int)g_pread_calls == IN.io_fail_at) { ++g_pread_calls; return -1; }
+	c = (unsigned)IN.chunk[g_pread_calls < 8 ? g_pread_calls : 7];
+	++g_pread_calls;
+	if (c > n) c = (unsigned)n;
+	for (k = 0; k < 8; ++k)
+		if (k < c && done + k < 8)
+			((unsigned char *)buf)[k] = IN.filedata[done + k];
+	return (ssize_t)c;
+}
+static ssize_t v_pwrite(int fd, const void *buf, size_t n, off_t off)
+{
+	(void)fd;
+	++g_pwrite_calls; g_pwrite_off = off; g_pwrite_n = n; g_pwrite_buf = buf;
+	return IN.io_fail_at == 0 ? (ssize_t)n - 1 : (ssize_t)n;
+}
+static void v_bw_limit(struct snapraid_bw *bw, unsigned bytes) { (void)bw; (void)bytes; }
+static int v_advise_rw(struct advise_struct *advise, int f, data_off_t offset, data_off_t size) { (void)advise; (void)f; (void)offset; (void)size; return IN.advise_rw_ret ? -1 : 0; }
+static unsigned v_file_block_size(struct snapraid_file *file, block_off_t file_pos, unsigned block_size) { (void)file; (void)file_pos; (void)block_size; return IN.rw_size; }
+
+#define pread v_pread
+#define pwrite v_pwrite
+#define bw_limit v_bw_limit
+#define advise_read v_advise_rw
+#define advise_write v_advise_rw
+#define file_block_size v_file_block_size
 #define open v_open
 #define fstat v_fstat
 #define close v_close
@@ -82,6 +126,12 @@ void pathcpy(char *dst, size_t size, const char *src) { (void)src; if (size) dst
 #include "region_advise_flags.c"
 #include "cmdline/handle.c"
 #include "cmdline/parity.c"
+#undef pread
+#undef pwrite
+#undef bw_limit
+#undef advise_read
+#undef advise_write
+#undef file_block_size
 #undef open
 #undef fstat
 #undef close
@@ -242,6 +292,65 @@ void h_check_parity(void)
 	}
 	if (g_process_calls)
 		VERIF_ASSERT(g_process_fix == IN.fix && g_process_calls == 1, "the fix flag reaches the processing loop unchanged");
+	VERIF_CANARY();
+}
+
+
+/* ---------------------------------------------------------------- handle_read / handle_write (REAL, block size 8) */
+void h_handle_read(void)
+{
+	static struct snapraid_handle H;
+	static struct snapraid_file FL;
+	static unsigned char BUF[8];
+	int r, k;
+	unsigned total = 0, calls_needed = 0, got = 0;
+	VERIF_INPUTS();
+	VERIF_ASSUME(IN.rw_size >= 1 && IN.rw_size <= 8);
+	VERIF_ASSUME(IN.rw_pos < 0x10000 && IN.valid_size >= 0);
+	for (k = 0; k < 8; ++k) {
+		VERIF_ASSUME(IN.chunk[k] >= 0 && IN.chunk[k] <= 8);
+		BUF[k] = IN.before[k];
+	}
+	H.file = &FL; H.f = 5; H.valid_size = IN.valid_size;
+	g_rw_buffer = BUF;
+	g_pread_calls = 0; g_pread_bad_args = 0;
+	r = handle_read(&H, IN.rw_pos, BUF, 8, v_out, 0);
+	VERIF_ASSERT(!g_pread_bad_args, "every read continues at buffer + count, offset + count, for the rest of the block");
+	if (r >= 0) {
+		VERIF_ASSERT((unsigned)r == IN.rw_size, "a successful read returns the number of valid bytes of this block of the file");
+		VERIF_ASSERT((data_off_t)IN.rw_pos * 8 < IN.valid_size, "data beyond what the file holds is never returned as read");
+		for (k = 0; k < 8; ++k)
+			VERIF_ASSERT(BUF[k] == ((unsigned)k < IN.rw_size ? IN.filedata[k] : 0), "the buffer holds the bytes of the file, zero padded to the block size");
+	} else {
+		VERIF_ASSERT(r == -1, "a failed read returns -1");
+	}
+	/* completeness: if the file delivers the whole block in chunks and nothing fails, the read succeeds */
+	for (k = 0; k < 8; ++k)
+		if (got < IN.rw_size && IN.chunk[k] > 0 && (int)calls_needed == k) { got += (unsigned)IN.chunk[k] > 8 - got ? 8 - got : (unsigned)IN.chunk[k]; ++calls_needed; }
+	(void)total;
+	if ((data_off_t)IN.rw_pos * 8 < IN.valid_size && got >= IN.rw_size && (IN.io_fail_at < 0 || IN.io_fail_at >= (int)calls_needed) && !IN.advise_rw_ret)
+		VERIF_ASSERT(r >= 0, "a block the file delivers completely is not reported as an error");
+	VERIF_CANARY();
+}
+
+void h_handle_write(void)
+{
+	static struct snapraid_handle H;
+	static struct snapraid_file FL;
+	static unsigned char BUF[8];
+	int r;
+	VERIF_INPUTS();
+	VERIF_ASSUME(IN.rw_size >= 1 && IN.rw_size <= 8);
+	VERIF_ASSUME(IN.rw_pos < 0x10000 && IN.valid_size >= 0 && IN.valid_size < ((data_off_t)1 << 40));
+	H.file = &FL; H.f = 5; H.valid_size = IN.valid_size;
+	g_pwrite_calls = 0;
+	r = handle_write(&H, IN.rw_pos, BUF, 8);
+	VERIF_ASSERT(g_pwrite_calls == 1 && g_pwrite_buf == BUF && g_pwrite_n == IN.rw_size && g_pwrite_off == (off_t)IN.rw_pos * 8,
+		"exactly the valid bytes of the block are written, at the offset of that block of the file (never beyond the recorded size)");
+	if (r == 0) {
+		VERIF_ASSERT(IN.io_fail_at != 0, "a short write is an error");
+		VERIF_ASSERT(H.valid_size == (IN.valid_size > (data_off_t)IN.rw_pos * 8 + IN.rw_size ? IN.valid_size : (data_off_t)IN.rw_pos * 8 + IN.rw_size), "the valid size follows the highest byte written");
+	}
 	VERIF_CANARY();
 }
 
